@@ -140,6 +140,10 @@ def check_fault_selection(repo: Repo, run: Run, D, e, f) -> None:
 
 
 def check(repo: Repo, run: Run) -> None:
+    take_over(run, "c07", "C07", repo, lambda o: o["rule"] == "R1" and o["module"].endswith(("trace_handlers.perf", "trace_handlers.dyld"))
+              and o["construct"].startswith("unpack"), "R0", "nested decoders take any number of records",
+              "the composite decoders hand every nested record they select to the stand-alone decoder of that kind: one that insists on "
+              "a fixed number of records raises, and the composite trace is never produced", 0)
     take_over(run, "c15", "C15", repo, lambda o: o["rule"] == "R3" and "cs_frames" in o["construct"], "R0", "user stack of a sample",
               "the user stack a sample carries is made of the words of the stack records nested in its window: words dropped or "
               "rewritten by the decoder of those records are missing from the sample", 1)
